@@ -581,6 +581,12 @@ func (w *acctWorld) checkQuiescent(phase string) {
 		w.r.Violation("C04:"+phase+":"+dirClass(d), fmt.Sprintf("directory != index at quiescence (%s): %s", phase, d.String()), w.detail(d))
 	case "inconclusive":
 		w.r.Inconclusive("deletion backlog did not drain within the watchdog")
+	case "ok":
+		if w.px == nil { // (with a backend an existence check may be answered by it)
+			if lost := lib.CheckEntriesFound(w.c, snap); len(lost) > 0 {
+				w.r.Violation("C04:"+phase+":file-of-entry-not-found-by-lookups", fmt.Sprintf("files on disk whose index entries no lookup finds (%s): %v", phase, lost), w.detail(lost))
+			}
+		}
 	}
 	w.r.CountN("files_listed", int64(len(snap.Entries)))
 }
